@@ -22,7 +22,8 @@ class State:
         self.origin = {}      # local name -> alias origin (see exec.assign_path)
         self.stale = set()
         self.trace = []       # human-readable path description (branch decisions) for reports
-        self.known = set()    # ast ids of atoms assumed on this path (cheap pruning of repeated forks)
+        self.known = {}       # ast id -> the (live) atom assumed on this path (cheap pruning of repeated forks); holding the
+                              # expression keeps its id from being recycled by z3 for a different term
 
     def copy(self):
         s = State(self.ex)
@@ -35,7 +36,7 @@ class State:
         s.origin = dict(self.origin)
         s.stale = set(self.stale)
         s.trace = list(self.trace)
-        s.known = set(self.known)
+        s.known = dict(self.known)
         return s
 
     def assume(self, *conds):
@@ -47,10 +48,10 @@ class State:
             if z3.is_true(c):
                 continue
             self.pc.append(c)
-            self.known.add(c.get_id())
+            self.known[c.get_id()] = c
             if z3.is_and(c):
                 for x in c.children():
-                    self.known.add(x.get_id())
+                    self.known[x.get_id()] = x
         return self
 
     def fork(self, ok, note):
@@ -66,7 +67,7 @@ class State:
             return self, None
         bad = self.copy().assume(z3.Not(ok)).note(note)
         good = self.copy().assume(ok)
-        good.known.add(oks.get_id())
+        good.known[oks.get_id()] = oks
         return good, bad
 
     def note(self, s):
